@@ -61,10 +61,15 @@ Tables ==
   CASE Mode = "path" ->
          {<<Svc(root, rs)>> : root \in PathRoots, rs \in RouteSeqs(Routes1(PathTemplates, PathMethods), 2)}
     [] Mode = "roots" ->
-         LET roots == IF Tier = "quick" THEN {"/", "/r", "/r/a", "/{w}", "/r/{w}", "/{w:[0-9]+}", "/{v:[a-z]+}"}
+         LET roots == IF Tier = "quick" THEN {"/", "/r", "/r/a", "/{w}", "/r/{w}", "/{w}/a", "/{w:[0-9]+}", "/{v:[a-z]+}"}
                       ELSE {"/", "/r", "/r/a", "/{w}", "/r/{w}", "/{w}/a", "/{w:[0-9]+}", "/{v:[a-z]+}", "/r/{w:[0-9]+}"}
              rts == {<<R0("GET", "")>>, <<R0("GET", "/a")>>, <<R0("GET", "/{x}")>>}
          IN {<<Svc(p[1], a), Svc(p[2], b)>> : p \in {x \in roots \X roots : x[1] # x[2]}, a \in rts, b \in rts}
+    [] Mode = "order3" ->
+         \* three routes of one service that can all match one URL (ranking beyond the best match)
+         LET pool == SetToSeq(Routes1({"/a/b", "/a/{x}", "/{x}/b", "/{x}/{y}"}, {"GET", "PUT"})) IN
+         {<<Svc("/r", <<pool[t[1]], pool[t[2]], pool[t[3]]>>)>> :
+            t \in {x \in (1..Len(pool)) \X (1..Len(pool)) \X (1..Len(pool)) : x[1] < x[2] /\ x[2] < x[3]}}
     [] Mode = "agree" ->
          {<<Svc(root, rs)>> : root \in CommonRoots, rs \in RouteSeqs(Routes1(CommonTemplates, {"GET", "POST"}), 2)}
          \cup {<<Svc("/r", a), Svc(r2, b)>> :
@@ -80,8 +85,12 @@ Tables ==
 \* ---------------- requests derived from a table ----------------
 SegValues(p) ==
   CASE p.kind = "lit" /\ p.verb = ""  -> {<<p.lit>>, <<"zz">>}
-    [] p.kind = "lit" /\ p.verb # ""  -> {<<p.lit \o p.verb>>, <<p.lit>>, <<p.lit \o ":undo">>}
-    [] p.kind = "var" /\ p.verb # ""  -> {<<"1" \o p.verb>>, <<"1">>, <<p.verb>>}
+    \* custom verbs: exact, missing, another verb, the same letters without the colon, a longer
+    \* verb ending in the same letters
+    [] p.kind = "lit" /\ p.verb # ""  -> {<<p.lit \o p.verb>>, <<p.lit>>, <<p.lit \o ":undo">>,
+                                          <<p.lit \o SubSeq(p.verb, 2, Len(p.verb))>>, <<p.lit \o ":x" \o SubSeq(p.verb, 2, Len(p.verb))>>}
+    [] p.kind = "var" /\ p.verb # ""  -> {<<"1" \o p.verb>>, <<"1">>, <<p.verb>>,
+                                          <<"1" \o SubSeq(p.verb, 2, Len(p.verb))>>, <<"1:x" \o SubSeq(p.verb, 2, Len(p.verb))>>}
     [] p.kind = "var" /\ p.suf # ""   -> {<<"a" \o p.suf>>, <<"a">>, <<p.suf>>, <<"f">>}
     [] p.kind = "var"                 -> IF Tier = "quick" THEN {<<"a">>, <<"1">>} ELSE {<<"a">>, <<"1">>, <<"">>}
     [] p.kind = "re"                  -> {<<"1">>, <<"a">>, <<"1a">>, <<"AB">>, <<"12">>}
